@@ -28,15 +28,15 @@ type callFn func(ctx context.Context, req proto.Message) (proto.Message, error)
 
 // target describes one paged List RPC of the library.
 type target struct {
-	rpc        string
-	keyPath    string // field (mask path) holding the item's key
-	tagPath    string // field (mask path) in which the harness stores a unique tag per item
-	itemsField string // repeated field of the response
-	newestFirst bool  // listing order: false = ascending by key (byte-wise), true = reverse insertion order
-	tokenKind  string // "resource-name" (base64 proto PageToken) or "index" (decimal index)
-	canGenID   bool   // the model invents a key when none is given
-	seeded     int    // number of items a fresh model already holds
-	newInst    func(rng *vk.Rand) *inst
+	rpc         string
+	keyPath     string // field (mask path) holding the item's key
+	tagPath     string // field (mask path) in which the harness stores a unique tag per item
+	itemsField  string // repeated field of the response
+	newestFirst bool   // listing order: false = ascending by key (byte-wise), true = reverse insertion order
+	tokenKind   string // "resource-name" (base64 proto PageToken) or "index" (decimal index)
+	canGenID    bool   // the model invents a key when none is given
+	seeded      int    // number of items a fresh model already holds
+	newInst     func(rng *vk.Rand) *inst
 }
 
 // inst is one freshly built model + server + wrapped client.
